@@ -166,3 +166,21 @@ Proof.
   - destruct (drun_first _ _ _ _ _ _ _ _ _ _ _ _ _ _ Hrun) as [rest E]. exists rest.
     rewrite Er, E, (init_status_counts _ i0 _ Hwf). unfold row0_of. cbn [opt_list]. unfold lenZ at 1 3 4. rewrite Hlen. reflexivity.
 Qed.
+
+(* percolation_based_discrete_SIR with both rho and initial_infecteds: the network is percolated
+   first (the coins are consumed), then discrete_SIR raises EoNError: no result is reachable, and
+   the only reachable failures are EoNError or a failure of the rule itself *)
+Theorem psir_both_rejected : forall g R ord i0 r0o rho tmin tmax full fuel,
+  (forall out, ~ reach (percolation_based_discrete_SIR_R g R ord (Some i0) r0o (Some rho) tmin tmax full fuel) out) /\
+  (forall e, reach_err (percolation_based_discrete_SIR_R g R ord (Some i0) r0o (Some rho) tmin tmax full fuel) e ->
+     e = EoNError \/ exists es kept q, reach_err (perc_loop R es kept q) e).
+Proof.
+  intros g R ord i0 r0o rho tmin tmax full fuel. unfold percolation_based_discrete_SIR_R, percolate_network_R. split.
+  - intros out H. apply reach_bind in H. destruct H as [hq [_ H]]. apply reach_bind in H. destruct H as [o [Ho _]].
+    unfold discrete_SIR in Ho. cbn [with_initial] in Ho. inversion Ho.
+  - intros e H. apply reach_err_bind in H. destruct H as [H|[hq [_ H]]].
+    + apply reach_err_bind in H. destruct H as [H|[kq [_ H]]]; [right; eexists; eexists; eexists; exact H|inversion H].
+    + apply reach_err_bind in H. destruct H as [H|[o [Ho _]]].
+      * unfold discrete_SIR in H. cbn [with_initial] in H. inversion H. left. reflexivity.
+      * unfold discrete_SIR in Ho. cbn [with_initial] in Ho. inversion Ho.
+Qed.
